@@ -918,3 +918,53 @@ def merged_class(e, cls_qname):
     m.__dict__.update(c.__dict__)
     m.methods = methods
     return m
+
+
+def comp_entry_writes(g):
+    """Mapping entries produced by comprehensions in the functions of g:
+    `{k: v for ... if c}` and generators / lists of `(k, v)` pairs (the
+    functional spelling of `for ...: if c: d[k] = v`).  Yields
+    (frame, comprehension node, key, value, guard atoms) - a conditional
+    value `a if t else b` gives one entry per arm with the test among the
+    guards.  Names bound by the comprehension stay unqualified."""
+    import ast as _ast
+    from ..model import walk_own
+    from ..facts import atoms_of_test
+    seen = set()
+    out = []
+    for fr in sorted({n.frame for n in g.nodes}, key=lambda f: f.id):
+        fn = fr.ctx.func.node
+        if (id(fn), fr.id) in seen:
+            continue
+        seen.add((id(fn), fr.id))
+        for x in walk_own(fn):
+            key = val = None
+            if isinstance(x, _ast.DictComp):
+                key, val = x.key, x.value
+            elif isinstance(x, (_ast.GeneratorExp, _ast.ListComp)) and \
+                    isinstance(x.elt, _ast.Tuple) and len(x.elt.elts) == 2:
+                key, val = x.elt.elts
+            if key is None:
+                continue
+            guards = []
+            for gen in x.generators:
+                for c in gen.ifs:
+                    try:
+                        guards += list(atoms_of_test(c, True, fr))
+                    except Exception:
+                        pass
+
+            def arms(v, gs):
+                if isinstance(v, _ast.IfExp):
+                    try:
+                        t = list(atoms_of_test(v.test, True, fr))
+                        f = list(atoms_of_test(v.test, False, fr))
+                    except Exception:
+                        t = f = []
+                    yield from arms(v.body, gs + t)
+                    yield from arms(v.orelse, gs + f)
+                else:
+                    yield v, gs
+            for v, gs in arms(val, guards):
+                out.append((fr, x, key, v, gs))
+    return out
